@@ -114,4 +114,31 @@ def entriesOf (n : Nat) (b : Bytes) : List Entry := entriesK n b
 def readValidate (n : Nat) (marker : Nat) (checkPlus : Bool) (mode : Mode) (file : Bytes) (k : Nat) : Option Nat :=
   reported n marker checkPlus 0 ((readAll (Fmt.kLine n) true mode file k).map (entriesOf n))
 
+/-! ### end to end for delimited formats: the C01 reader cuts the file, every chunk's rows are parsed -/
+
+/-- cut `l` into consecutive pieces of the given sizes -/
+def splitBy {α} : List Nat → List α → List (List α)
+  | [], _ => []
+  | n :: ns, l => l.take n :: splitBy ns (l.drop n)
+
+/-- `flags[i]` = "data line i parses" (zero-based, counted from the start of the data). The file is
+read in chunks by the C01 reader model; the rows of each chunk are parsed in order. -/
+def readValidateRows (flags : List Bool) (mode : Mode) (file : Bytes) (k : Nat) : Option Nat :=
+  reportedRows 0 (splitBy ((readAll (Fmt.kLine 1) true mode file k).map countNL) flags)
+
+/-- column validation happens when a buffer is made, value parsing when its fields are read: per chunk, a
+column-count error of that chunk precedes its parse error -/
+def reportedBoth (colcheck : Bool) : Nat → List (List Nat) → List (List Bool) → Option Nat
+  | before, c :: cs, f :: fs =>
+    match (if colcheck then firstIrregular c else none) with
+    | some i => some (before + i)
+    | none => match firstBad id f with
+      | some i => some (before + i)
+      | none => reportedBoth colcheck (before + c.length) cs fs
+  | _, _, _ => none
+
+def readValidateDelim (colcheck : Bool) (cols : List Nat) (flags : List Bool) (mode : Mode) (file : Bytes) (k : Nat) : Option Nat :=
+  let sizes := (readAll (Fmt.kLine 1) true mode file k).map countNL
+  reportedBoth colcheck 0 (splitBy sizes cols) (splitBy sizes flags)
+
 end C15
